@@ -43,6 +43,22 @@ def writer_entries(F):
     return out
 
 
+def payload_source(F, entry):
+    """('json', place) when the entry's bytes are serde_json::to_vec(&place)?, ('raw', place) when they are the place itself
+    (followed through immutable lets); None otherwise"""
+    b = F.body(WRITE)
+    env = tir.LetEnv(b["tir"]["value"])
+    e = env.resolve(entry["payload"], peel=False)
+    t = e
+    if t.get("k") == "Try":
+        t = strip(t["e"])
+    if t.get("k") == "Call" and (t.get("path") or "").startswith("serde_json::to_vec") and len(t["args"]) == 1:
+        v = env.resolve(t["args"][0], peel=False)
+        return ("json", tir.place(v))
+    p = tir.place(e)
+    return ("raw", p) if p else None
+
+
 def reader_arms(F):
     """{entry name: arm} of the reader's dispatch on the tar entry's file name; '_' for the wildcard"""
     b = F.body(READ)
